@@ -1604,8 +1604,19 @@ impl AnnotationStore {
                 (_, Selector::ResourceSelector(..)) => Ordering::Greater,
                 (Selector::DataSetSelector(..), _) => Ordering::Less,
                 (_, Selector::DataSetSelector(..)) => Ordering::Greater,
-                // catch-all for anything that shouldn't occur at this point anyway:
-                (a, b) => panic!("Unable to compare order for selector {:?} vs {:?}", a, b),
+                (Selector::DataKeySelector(set, key), Selector::DataKeySelector(set2, key2)) => {
+                    set.cmp(set2).then_with(|| key.cmp(key2))
+                }
+                (
+                    Selector::AnnotationDataSelector(set, data),
+                    Selector::AnnotationDataSelector(set2, data2),
+                ) => set.cmp(set2).then_with(|| data.cmp(data2)),
+                (Selector::AnnotationSelector(..), _) => Ordering::Less,
+                (_, Selector::AnnotationSelector(..)) => Ordering::Greater,
+                (Selector::DataKeySelector(..), _) => Ordering::Less,
+                (_, Selector::DataKeySelector(..)) => Ordering::Greater,
+                // complex selectors were refused above, whatever else there may be keeps its place
+                _ => Ordering::Equal,
             });
         }
 
